@@ -51,8 +51,13 @@ ASSUMPTIONS = [
     "Tor prints the open hops of the circuit on every other line and hops never go away again",
     "a stream whose circuit died and that Tor has not yet reported may still reference the dead circuit object",
     "Tor may report circuit 0 for an attached, not yet connected stream on a REMAP line (a controller re-attached it: "
-    "no DETACHED is sent); from then on the stream is on no circuit. A change of circuit with no line in between is "
-    "not generated",
+    "no DETACHED is sent); from then on the stream is on no circuit",
+    "Tor may also report SENTCONNECT on another circuit with no line in between (the quantifier only names "
+    "re-attachment after detach): which of the two circuits the client then shows is not judged until the next "
+    "DETACHED / REMAP 0, but Stream.circuit and the Circuit.streams lists must agree with each other, and the stream "
+    "must be gone when it ends",
+    "in a fifth of the cases two state-wide circuit and stream listeners are registered which unlisten themselves "
+    "from the object inside its closed/failed notification (one-shot clean-up); the oracle is the same",
 ]
 TRUSTED_BASE = ["vf.faketor.torsim.TorSim (model, generator and ground truth)", "vf.faketor.core.FakeTor / Link",
                 "vf.refs.reply encoder"]
@@ -78,6 +83,8 @@ FLOORS = {
               "closed_after_failed_delivered": 150, "stream_first_seen_in_mid_life": 150, "unattached_by_remap_0": 60,
               "objects_with_quoted_keywords": 500, "quoted_flag_values_compared": 2500,
               "flag_values_with_blank_not_judged": 2000,
+              "moved_without_detached": 35, "moved_streams_compared": 100, "cases_with_one_shot_listeners": 80,
+              "listeners_unlistened_inside_final_notification": 450,
               "cases_with_attacher": 100, "attachstream_commands": 250, "failed_streams_with_attacher": 100,
               "reach:txtorcon.stream:Stream.update": 4200, "reach:txtorcon.circuit:Circuit.update": 4200,
               "reach:txtorcon.torstate:TorState.circuit_destroy": 700,
@@ -88,7 +95,7 @@ FLOORS = {
                  "reattached_to_other_circuit": 2500, "hop_outside_consensus_named_like_consensus_relay": 8000, "unattached_by_remap_0": 1500},
 }
 
-SIM_STATS = ["objects_with_quoted_keywords", "unattached_by_remap_0", "failed_closed_pairs", "stream_first_seen_in_mid_life", "circuit_id_reused", "stream_id_reused", "circuit_died_under_streams",
+SIM_STATS = ["moved_without_detached", "objects_with_quoted_keywords", "unattached_by_remap_0", "failed_closed_pairs", "stream_first_seen_in_mid_life", "circuit_id_reused", "stream_id_reused", "circuit_died_under_streams",
              "detached_after_circuit_died", "ended_after_circuit_died", "reattached_after_detach",
              "reattached_to_other_circuit", "hop_not_in_consensus",
              "hop_outside_consensus_named_like_consensus_relay", "cannibalized",
@@ -110,7 +117,8 @@ def gen_case(rnd, tier="quick"):
     if rnd.random() < 0.25:
         attacher = {"answer": rnd.choice(["none", "none", "do_not_attach", "first_built", "deferred_none"]),
                     "failure_method": rnd.choice(["missing", "raising", "recording"])}
-    return {"pre": pre, "window": win, "hist": hist, "attacher": attacher, "boot": "ctor" if rnd.random() < 0.6 else "from_protocol",
+    one_shot = rnd.choice([1, 2, 2, 3]) if rnd.random() < 0.2 else 0
+    return {"pre": pre, "window": win, "hist": hist, "attacher": attacher, "one_shot_listeners": one_shot, "boot": "ctor" if rnd.random() < 0.6 else "from_protocol",
             "chunking": chunking, "limits": limits}
 
 
@@ -225,6 +233,7 @@ def compare(state, sim, rec=None):
               {"id": cid, "got": got_path, "want": want_path}, who)
     n_s = n_att = 0
     stream_objs = {}
+    moved = {}          # streams Tor moved to another circuit without DETACHED: which one is shown is open
     for sid in sorted(got_s & want_s):
         s, m = state.streams[sid], sim.streams[sid]
         stream_objs[sid] = s
@@ -253,7 +262,9 @@ def compare(state, sim, rec=None):
                   {"id": sid, "got": [None if s.source_addr is None else str(s.source_addr), s.source_port],
                    "want": [sa, sp]}, who)
         truth = sim.circuit_of(sid)
-        if truth is None:
+        if m.moved_unjudged:
+            moved[sid] = (s, m)
+        elif truth is None:
             if s.circuit is not None:
                 V("stream-circuit", stream_class(m) + ",tor=unattached",
                   {"id": sid, "got": getattr(s.circuit, "id", repr(s.circuit)), "want": None}, who)
@@ -270,8 +281,9 @@ def compare(state, sim, rec=None):
     # the other direction: every live circuit lists exactly its streams, once
     for cid, c in live_circ_objs.items():
         m = sim.circuits[cid]
-        want = [stream_objs[sid] for sid in sim.streams_on(cid, reported_only=True) if sid in stream_objs]
-        got = list(c.streams)
+        want = [stream_objs[sid] for sid in sim.streams_on(cid, reported_only=True)
+                if sid in stream_objs and sid not in moved]
+        got = [x for x in c.streams if not any(x is ms for ms, _ in moved.values())]
         bad = None
         for x in got:
             n = sum(1 for y in got if y is x)
@@ -292,6 +304,26 @@ def compare(state, sim, rec=None):
             V("circuit-streams", "%s,circuit-last=%s" % (bad[0], m.status),
               {"circuit": cid, "got": [getattr(x, "id", None) for x in got],
                "want": sim.streams_on(cid, reported_only=True), "problem": bad}, ("c", m.uid))
+    for sid, (s, m) in moved.items():
+        # whichever circuit the client shows: one of those Tor named, and consistently in both directions
+        listed = {cid: sum(1 for x in c.streams if x is s) for cid, c in live_circ_objs.items()}
+        shown = s.circuit
+        shown_live = [cid for cid, c in live_circ_objs.items() if c is shown]
+        ok_ids = set(m.moved_ids)
+        bad = None
+        if shown_live:
+            if shown_live[0] not in ok_ids:
+                bad = "shows-a-third-circuit"
+            elif listed[shown_live[0]] != 1 or any(n for cid, n in listed.items() if cid != shown_live[0]):
+                bad = "circuit-and-lists-disagree"
+        elif any(listed.values()):
+            bad = "listed-but-shows-no-live-circuit"
+        if rec is not None:
+            rec.count("moved_streams_compared")
+        if bad:
+            V("stream-circuit-inconsistent", "moved-without-DETACHED," + bad,
+              {"id": sid, "stream.circuit": getattr(shown, "id", None), "listed_under": {k: v for k, v in listed.items() if v},
+               "tor": {"now_on": m.circ, "moved_between": sorted(m.moved_ids)}}, ("s", m.uid))
     if rec is not None:
         rec.count("oracle_evaluations")
         rec.count("circuits_compared", n_c)
@@ -325,6 +357,26 @@ class Reporter(object):
             if errors:
                 d["logged_errors"] = list(errors)[:3]
             self.rec.violation(clause, cls, d, self.case)
+
+
+def install_one_shot_listeners(state, n, rec):
+    """state-wide listeners that take themselves off an object inside its final notification"""
+    from txtorcon.interface import CircuitListenerMixin, StreamListenerMixin
+
+    class C(CircuitListenerMixin):
+        def circuit_closed(self, circuit, **kw):
+            rec.count("listeners_unlistened_inside_final_notification")
+            circuit.unlisten(self)
+        circuit_failed = circuit_closed
+
+    class S(StreamListenerMixin):
+        def stream_closed(self, stream, **kw):
+            rec.count("listeners_unlistened_inside_final_notification")
+            stream.unlisten(self)
+        stream_failed = stream_closed
+    for _ in range(n):
+        state.add_circuit_listener(C())
+        state.add_stream_listener(S())
 
 
 def install_attacher(state, spec, rec):
@@ -408,6 +460,9 @@ def run_case(case, rec, mutate_hook=None):
             return rep
         state = ses.state
         rep.report(compare(state, sim, rec), "snapshot", errors=ses.errors.take())
+        if case.get("one_shot_listeners"):
+            install_one_shot_listeners(state, case["one_shot_listeners"], rec)
+            rec.count("cases_with_one_shot_listeners")
         if case.get("attacher"):
             install_attacher(state, case["attacher"], rec)
             ses.pump()
